@@ -12,6 +12,7 @@ From M Require UnitSound.
 From M Require UnitFull.
 From M Require Tie.
 From M Require SuffixSpec.
+From M Require LexCut.
 From M Require DecSpec.
 From M Require HdrSound.
 From M Require HdrSpec.
@@ -21,6 +22,7 @@ From M Require ListWs.
 From M Require MoreSpecs.
 From M Require NumList.
 From M Require SimpleSpecs.
+From M Require UnitProgress.
 From M Require UnitSpec.
 Import ListNotations.
 
@@ -312,4 +314,24 @@ Theorem C13_suffix_complete :
 Proof. exact (@SuffixSpec.suffix_complete). Qed.
 End T_suffix_complete.
 Definition C13_suffix_complete := @T_suffix_complete.C13_suffix_complete.
+
+Module T_detect_cut. Import LexCut. Local Open Scope bool_scope. Local Open Scope Z_scope.
+Import LexModel LexBounds UnitProgress. Local Open Scope Z_scope.
+Theorem C13_detect_cut :
+  forall a t z,
+  plain a -> tchar t -> detect_unit (a ++ t :: z) = detect_t a t.
+Proof. exact (@LexCut.detect_cut). Qed.
+End T_detect_cut.
+Definition C13_detect_cut := @T_detect_cut.C13_detect_cut.
+
+Module T_detect_t_shape. Import LexCut. Local Open Scope bool_scope. Local Open Scope Z_scope.
+Import LexModel LexBounds UnitProgress. Local Open Scope Z_scope.
+Theorem C13_detect_t_shape :
+  forall a t,
+  plain a ->
+  (u_term (detect_t a t) = (if (t =? 10)%N then TERM_NL else TERM_SEMICOLON) /\ u_consumed (detect_t a t) = Z.of_nat (length a) + 1) \/
+  (u_term (detect_t a t) = TERM_NONE /\ ty (u_hdr (detect_t a t)) = T_INVALID /\ 1 <= u_consumed (detect_t a t) <= Z.of_nat (length a)).
+Proof. exact (@LexCut.detect_t_shape). Qed.
+End T_detect_t_shape.
+Definition C13_detect_t_shape := @T_detect_t_shape.C13_detect_t_shape.
 
